@@ -227,7 +227,7 @@ theorem pvOperand_merge {E : Env} {X Y : Nat} (hE : E.get? "python_version" = so
             have hmnB : mn ∈ B := (hr0.2 (.rng R) (by simp [VC.flatten])).2.2.2 mn
               (by simp [RC.bounds, RC.view, VRange.bounds, RC.min, RC.max, hmin])
             obtain ⟨a, b, rfl⟩ := hlB mn hmnB
-            rw [litV_text, cand_text,
+            rw [litV_text, cand_text _ (relText_valOk a [b]),
               parseItemMarker_leafText "python_version" "==" _ false (by decide) (by decide) (relText_valOk a [b])] at hcq
             simp only [itemConstraintString, Bool.false_eq_true, if_false,
               mkSingle_pvLeaf (sop := .eq) (ops := "==") (by decide) a b] at hcq
